@@ -121,6 +121,19 @@ INVARIANT MonitorOK
 INVARIANT FoldIsPlace
 CHECK_DEADLOCK FALSE
 """ % (5 if tier == "quick" else 6)
+    # (Apalache works on the symbolic lemmas in the background while TLC explores the model and the replays run)
+    import threading
+    from lib import apalache
+    napa = 4 if tier == "quick" else 5
+    apa = {}
+
+    def run_apalache():
+        try:
+            apa["r"] = apalache.check("PlacementApa", "Inv", defs={"N": napa}, timeout=300 if tier == "quick" else 1500)
+        except BaseException as e:   # noqa
+            apa["e"] = e
+    apa_thread = threading.Thread(target=run_apalache)
+    apa_thread.start()
     r = tlc.run("Rendezvous", cfg_text=cfg, workers=16, timeout=1800)
     if r.error:
         raise common.MachineryError(r.error)
@@ -136,15 +149,6 @@ CHECK_DEADLOCK FALSE
         raise common.MachineryError("vacuous export: no all-tie score table")
     # the same lemmas for ARBITRARY scores (TLC enumerates score tables 0..2 only): Apalache, symbolically, over all natural-number
     # score tables, all rotations and all node orders of N nodes -- incl. the as-coded fold of get_node
-    from lib import apalache
-    napa = 4 if tier == "quick" else 5
-    verdict, detail = apalache.check("PlacementApa", "Inv", defs={"N": napa}, timeout=300 if tier == "quick" else 1500)
-    rep.set("apalache_placement_lemmas", {"nodes": napa, "verdict": verdict})
-    if verdict == "violated":
-        rep.violation("C11/model/apalache/PlacementApa", "the placement lemmas (unique winner, removal / addition locality, fold = winner) "
-                      "fail for some integer score table", {"counterexample": detail})
-    elif verdict != "ok":
-        rep.assumptions.append("Apalache run skipped (%s): the placement lemmas rest on TLC's enumeration of score tables 0..2" % detail[:120].replace("\n", " "))
     traces = []
     # ---- (i) spec -> code with forced ties
     stride = 6 if tier == "quick" else 1
@@ -353,6 +357,16 @@ CHECK_DEADLOCK FALSE
     server_specs(rep, tier)
     for t in traces:
         t["h"] = {"maxrej": 5}
+    apa_thread.join()
+    if "e" in apa:
+        raise apa["e"]
+    verdict, detail = apa["r"]
+    rep.set("apalache_placement_lemmas", {"nodes": napa, "verdict": verdict})
+    if verdict == "violated":
+        rep.violation("C11/model/apalache/PlacementApa", "the placement lemmas (unique winner, removal / addition locality, fold = winner) "
+                      "fail for some integer score table", {"counterexample": detail})
+    elif verdict != "ok":
+        rep.assumptions.append("Apalache run skipped (%s): the placement lemmas rest on TLC's enumeration of score tables 0..2" % detail[:120].replace("\n", " "))
     acc, rej, st, _ = tlc.validate_traces("RendezvousTrace", [{"h": t["h"], "ev": t["ev"]} for t in traces], chunk=3000)
     rep.set("traces_validated_against_impl", len(traces))
     rep.set("trace_states", st)
